@@ -128,7 +128,7 @@ _PAYLOAD = re.compile(r'(Option::Some|Result::Ok|ControlFlow::Continue)$')
 ORIGIN_TRANSPARENT = re.compile(r'::(to_ascii_uppercase|to_ascii_lowercase|to_owned|to_string)$')
 
 
-def origin_calls(b, operand, depth=14):
+def origin_calls(b, operand, depth=28):
     """the calls that directly produce the value of `operand`: follows copies, references, casts, `?`
     and the other transparent adaptors, projections out of tuples / Some / Ok built in this body, all
     definitions of a match-joined local, and `Option::zip` (`a.zip(b)` yields Some((a, b)))."""
@@ -148,6 +148,8 @@ def origin_calls(b, operand, depth=14):
                     if a['k'] in ('copy', 'move'): visit(a['pl']['l'], _projs(a['pl']) + [projs[0]] + projs[2:], d - 1)
                 elif (T.TRANSPARENT.search(nm) or ORIGIN_TRANSPARENT.search(nm)) and a0 is not None:
                     visit(a0['pl']['l'], _projs(a0['pl']) + projs, d - 1)
+                elif 'FromResidual' in c.name and c.item == 'from_residual':
+                    pass            # the Err / None of an inner `?`: never the value asked for
                 else:
                     out.append(c)
                 continue
@@ -346,6 +348,328 @@ def flows_to_return(b, local, limit=400):
                         elif k2 == 'stmt' and d2['rv']['k'] == 'use' and d2['rv']['ops'][0]['k'] in ('copy', 'move'): work.append(d2['rv']['ops'][0]['pl']['l'])
                     work.append(r)
     return 0 in seen
+
+
+# =============================================================================== concrete probing of a loop body
+# A small interpreter of the mini-MIR on concrete sample values ("path probing"): enough for scalar tests, tuples, references,
+# field-less enums, short-circuit control flow, `==`/`<`.. through PartialEq/PartialOrd, crate helpers.  Anything else is UNK; a
+# switch on UNK ends the probe undecided.  Nothing of the library is executed.
+class _Unk:
+    def __repr__(self): return 'UNK'
+UNK = _Unk()
+
+
+class _Cell:
+    __slots__ = ('v',)
+    def __init__(self, v=UNK): self.v = v
+
+
+class _Ref:
+    __slots__ = ('cell', 'path')
+    def __init__(self, cell, path): self.cell = cell; self.path = list(path)
+
+
+class _Iter:
+    """a modelled iterator: the items still to come"""
+    __slots__ = ('items', 'pos')
+    def __init__(self, items): self.items = list(items); self.pos = 0
+
+
+class ProbeUndecided(Exception):
+    pass
+
+
+def _nav(v, path):
+    for k in path:
+        if isinstance(v, list) and isinstance(k, int) and k < len(v[-1]): v = v[-1][k]
+        else: return UNK
+    return v
+
+
+def _cp_val(v):
+    if isinstance(v, list) and v[0] == 'vec': return v            # a moved Vec keeps its element cells
+    return [v[0]] + [x for x in v[1:-1]] + [[_cp_val(x) for x in v[-1]]] if isinstance(v, list) else v
+
+
+def _full(v, depth=0):
+    """value with every reference replaced by what it points to"""
+    if depth > 12: return UNK
+    if isinstance(v, _Ref): return _full(_nav(v.cell.v, v.path), depth + 1)
+    if isinstance(v, list) and v[0] == 'vec': return ['vec', [_full(c.v, depth + 1) for c in v[1]]]
+    if isinstance(v, list): return [v[0]] + list(v[1:-1]) + [[_full(x, depth + 1) for x in v[-1]]]
+    return v
+
+
+def _has_unk(v):
+    if v is UNK: return True
+    return isinstance(v, list) and any(_has_unk(x) for x in v[-1])
+
+
+_BUILTIN_DISCR = {'Option::None': 0, 'Option::Some': 1, 'Result::Ok': 0, 'Result::Err': 1, 'ControlFlow::Continue': 0, 'ControlFlow::Break': 1}
+
+
+class Probe:
+    def __init__(self, ctx, budget=4000):
+        self.ctx = ctx; self.F = ctx.F; self.budget = budget
+
+    # ---- values
+    def const(self, body, o):
+        v = o['v'].strip()
+        if v.startswith('const '): v = v[6:]
+        if v in ('true', 'false'): return v == 'true'
+        if '::promoted[' in v:
+            m = re.search(r'::promoted\[(\d+)\]$', v)
+            pb = self.F.bodies.get(v) or self.F.bodies.get('%s::promoted[%s]' % (body.name, m.group(1)))
+            return self.run(pb, [], depth=1) if pb is not None else UNK
+        if v in self.F.consts: v = self.F.consts[v][1]
+        m = re.match(r'^(-?[0-9]+)_?[iu](8|16|32|64|128|size)$', v)
+        if m: return int(m.group(1))
+        f = T.f64_const(v)
+        return f if f is not None else UNK
+
+    def handle(self, fr, pl):
+        cell = fr[pl['l']]; path = []
+        for p in pl['p']:
+            if p == '*':
+                cur = _nav(cell.v, path)
+                if isinstance(cur, _Ref): cell, path = cur.cell, list(cur.path)
+            elif isinstance(p, dict) and 'f' in p:
+                if not p['f'].isdigit(): return None
+                path.append(int(p['f']))
+            elif isinstance(p, dict) and 'dc' in p: pass
+            elif isinstance(p, dict) and 'ix' in p:
+                # built-in slice indexing `s[i]` (the bounds check is an `assert` before it)
+                cur = _nav(cell.v, path); i = _full(fr[p['ix']].v)
+                if isinstance(cur, list) and cur[0] == 'vec' and isinstance(i, int) and not isinstance(i, bool) and 0 <= i < len(cur[1]): cell, path = cur[1][i], []
+                else: return None
+            else: return None
+        return cell, path
+
+    def operand(self, body, fr, o):
+        if o['k'] == 'const': return self.const(body, o)
+        if o['k'] not in ('copy', 'move'): return UNK
+        h = self.handle(fr, o['pl'])
+        return _cp_val(_nav(h[0].v, h[1])) if h else UNK
+
+    def discr(self, v):
+        v = _full(v)
+        if not isinstance(v, list) or v[0] != 'enum': return UNK
+        for k, d in _BUILTIN_DISCR.items():
+            if v[1].endswith(k): return d
+        adt = self.F.adt(v[1].rsplit('::', 1)[0]) if '::' in v[1] else None
+        for x in (adt or {}).get('variants', []):
+            if x['name'] == v[1].rsplit('::', 1)[-1]: return x['discr']
+        return UNK
+
+    def binop(self, op, a, b):
+        a, b = _full(a), _full(b)
+        if _has_unk(a) or _has_unk(b): return UNK
+        o = op.replace('WithOverflow', '')
+        try:
+            r = {'Eq': lambda: a == b, 'Ne': lambda: a != b, 'Lt': lambda: a < b, 'Le': lambda: a <= b, 'Gt': lambda: a > b, 'Ge': lambda: a >= b,
+                 'BitAnd': lambda: a & b, 'BitOr': lambda: a | b, 'BitXor': lambda: a ^ b, 'Add': lambda: a + b, 'Sub': lambda: a - b, 'Mul': lambda: a * b,
+                 'Div': lambda: a / b}.get(o, lambda: UNK)()
+        except Exception:
+            return UNK
+        return ['tuple', [r, False]] if op.endswith('WithOverflow') else r
+
+    def rvalue(self, body, fr, rv):
+        k = rv['k']
+        if k == 'use': return self.operand(body, fr, rv['ops'][0])
+        if k == 'ref':
+            h = self.handle(fr, rv['pl'])
+            return _Ref(h[0], h[1]) if h else UNK
+        if k == 'bin': return self.binop(rv['op'], self.operand(body, fr, rv['ops'][0]), self.operand(body, fr, rv['ops'][1]))
+        if k == 'un' and rv['op'] == 'PtrMetadata':
+            tv, _r = self._target(self.operand(body, fr, rv['ops'][0]))
+            return len(tv[1]) if isinstance(tv, list) and tv[0] == 'vec' else UNK
+        if k == 'len':
+            h = self.handle(fr, rv['pl']); tv = _nav(h[0].v, h[1]) if h else UNK
+            return len(tv[1]) if isinstance(tv, list) and tv[0] == 'vec' else UNK
+        if k == 'un':
+            a = _full(self.operand(body, fr, rv['ops'][0]))
+            if _has_unk(a): return UNK
+            return (not a) if rv['op'] == 'Not' and isinstance(a, bool) else (-a if rv['op'] == 'Neg' else UNK)
+        if k == 'cast':
+            a = _full(self.operand(body, fr, rv['ops'][0]))
+            if isinstance(a, bool) or not isinstance(a, (int, float)): return a
+            return float(a) if rv.get('to') in ('f64', 'f32') else (int(a) if re.match(r'^[iu](8|16|32|64|128|size)$', rv.get('to') or '') and a == a and abs(a) != float('inf') else a)
+        if k == 'agg':
+            ops = [self.operand(body, fr, o) for o in rv['ops']]
+            if rv['adt'] in ('tuple', 'array'): return ['tuple', ops]
+            if rv['adt'].startswith('closure:'): return ['closure', rv['adt'][8:], ops]
+            return ['enum', rv['adt'], ops]
+        if k == 'discr':
+            h = self.handle(fr, rv['pl'])
+            return self.discr(_nav(h[0].v, h[1])) if h else UNK
+        return UNK
+
+    # ---- calls
+    def call(self, body, fr, c, depth):
+        args = [self.operand(body, fr, a) for a in c.args]
+        nm = T.strip_generics_tail(c.name); item = c.item
+        if item in ('eq', 'ne') and 'PartialEq' in c.name and len(args) == 2:
+            r = self.binop('Eq', args[0], args[1])
+            return r if r is UNK or item == 'eq' else (not r)
+        if item in ('lt', 'le', 'gt', 'ge') and 'PartialOrd' in c.name and len(args) == 2:
+            return self.binop(item.capitalize(), args[0], args[1])
+        if T.NOT_CALL.search(c.name) and args:
+            a = _full(args[0]); return (not a) if isinstance(a, bool) else UNK
+        if 'f64' in c.name and item in ('abs', 'min', 'max', 'floor', 'ceil') and args:
+            xs = [_full(a) for a in args]
+            if any(_has_unk(x) or isinstance(x, list) for x in xs): return UNK
+            import math
+            return {'abs': lambda: abs(xs[0]), 'min': lambda: min(xs), 'max': lambda: max(xs), 'floor': lambda: float(math.floor(xs[0])), 'ceil': lambda: float(math.ceil(xs[0]))}[item]()
+        if re.search(r'::(clone|deref|deref_mut|borrow|borrow_mut|as_ref|as_mut|into|from)$', nm) and len(args) == 1:
+            a = args[0]
+            if item == 'clone' and isinstance(a, _Ref): return _cp_val(_nav(a.cell.v, a.path))
+            return a
+        r = self.std_model(c, args)
+        if r is not NotImplemented: return r
+        cb = self.F.bodies.get(c.path) or self.F.bodies.get(c.name)
+        if cb is not None and cb.kind in ('fn', 'closure') and depth < 3 and cb.name.startswith('qplib::'):
+            if cb.kind == 'closure' and len(args) == 2 and isinstance(args[1], list) and args[1][0] == 'tuple' and cb.argc == 1 + len(args[1][-1]):
+                args = [args[0]] + list(args[1][-1])
+            if len(args) == cb.argc: return self.run(cb, args, depth + 1)
+        # unknown callee: its result is unknown and whatever it may write through a `&mut` argument too
+        for a, v in zip(c.args, args):
+            if isinstance(v, _Ref) and a['k'] in ('copy', 'move') and '&mut' in body.locals[a['pl']['l']]: self.store(v.cell, v.path, UNK)
+        return UNK
+
+    # ---- model of the few std collection / iterator operations a loop over slices is written with (STD_MODEL lists them)
+    STD_MODEL = {
+        'len / is_empty':                 'length of a Vec / slice',
+        'iter / iter_mut / into_iter':    'iterator over references to the elements (values for an owned Vec); identity on an iterator',
+        'zip / enumerate / rev / copied / cloned / by_ref / chain': 'the adaptors without closures (those with closures are loops in the normal form)',
+        'next':                           'on the iterators above and on `a..b`',
+        'index / index_mut / get / get_mut': 'element access; out of range is a panic = probe undecided',
+        'min / max':                      'on integers (`a.len().min(b.len())`)',
+    }
+
+    @staticmethod
+    def _target(v):
+        """the value a (chain of) reference(s) points to, and the last reference"""
+        ref = None
+        for _ in range(8):
+            if isinstance(v, _Ref): ref = v; v = _nav(v.cell.v, v.path)
+            else: break
+        return v, ref
+
+    def _as_iter(self, v):
+        tv, ref = self._target(v)
+        if isinstance(tv, _Iter): return tv
+        if isinstance(tv, list) and tv[0] == 'vec':
+            return _Iter([_Ref(c, []) for c in tv[1]] if ref is not None else [c.v for c in tv[1]])
+        if isinstance(tv, list) and tv[0] == 'enum' and tv[1].endswith('ops::Range') and all(isinstance(x, int) for x in tv[-1]):
+            return _Iter(list(range(tv[-1][0], tv[-1][1])))
+        return None
+
+    def std_model(self, c, args):
+        item = c.item; n = len(args)
+        if not args: return NotImplemented
+        tv, ref = self._target(args[0])
+        is_vec = isinstance(tv, list) and tv[0] == 'vec'
+        if item == 'len' and is_vec: return len(tv[1])
+        if item == 'is_empty' and is_vec: return len(tv[1]) == 0
+        if item in ('iter', 'iter_mut', 'into_iter', 'by_ref', 'rev', 'copied', 'cloned', 'enumerate', 'zip', 'chain') and ('Iterator' in (c.trait or '') or item in ('iter', 'iter_mut')):
+            it = self._as_iter(args[0])
+            if it is None: return NotImplemented
+            if item in ('iter', 'iter_mut', 'into_iter'): return it
+            if item == 'by_ref': return args[0]
+            rest = it.items[it.pos:]
+            if item == 'rev': return _Iter(rest[::-1])
+            if item in ('copied', 'cloned'): return _Iter([_cp_val(_full(x)) for x in rest])
+            if item == 'enumerate': return _Iter([['tuple', [i, x]] for i, x in enumerate(rest)])
+            other = self._as_iter(args[1]) if n == 2 else None
+            if other is None: return NotImplemented
+            o = other.items[other.pos:]
+            return _Iter([['tuple', [x, y]] for x, y in zip(rest, o)]) if item == 'zip' else _Iter(rest + o)
+        if item == 'next' and 'Iterator' in (c.trait or ''):
+            if isinstance(tv, _Iter):
+                if tv.pos < len(tv.items):
+                    tv.pos += 1
+                    return ['enum', 'std::option::Option::Some', [tv.items[tv.pos - 1]]]
+                return ['enum', 'std::option::Option::None', []]
+            if isinstance(tv, list) and tv[0] == 'enum' and tv[1].endswith('ops::Range') and ref is not None and all(isinstance(x, int) for x in tv[-1]):
+                a, b = tv[-1]
+                if a < b:
+                    self.store(ref.cell, ref.path + [0], a + 1)
+                    return ['enum', 'std::option::Option::Some', [a]]
+                return ['enum', 'std::option::Option::None', []]
+            return NotImplemented
+        if item in ('index', 'index_mut', 'get', 'get_mut') and is_vec and n == 2:
+            i = _full(args[1])
+            if not isinstance(i, int) or isinstance(i, bool): return NotImplemented
+            if 0 <= i < len(tv[1]):
+                r = _Ref(tv[1][i], [])
+                return r if item.startswith('index') else ['enum', 'std::option::Option::Some', [r]]
+            if item.startswith('index'): raise ProbeUndecided('index out of range (panic)')
+            return ['enum', 'std::option::Option::None', []]
+        if item in ('min', 'max') and n == 2:
+            a, b = _full(args[0]), _full(args[1])
+            if all(isinstance(x, int) and not isinstance(x, bool) for x in (a, b)): return min(a, b) if item == 'min' else max(a, b)
+        return NotImplemented
+
+    def store(self, cell, path, val):
+        if not path: cell.v = val; return
+        par = _nav(cell.v, path[:-1])
+        if isinstance(par, list) and path[-1] < len(par[-1]): par[-1][path[-1]] = val
+        else: cell.v = UNK
+
+    # ---- execution
+    def run(self, body, args, depth=0, intercept=None, stop=()):
+        """run `body` on concrete arguments; intercept = {block: fn(frame) -> value | 'stop'} replaces the call ending that block"""
+        fr = [_Cell() for _ in body.locals]
+        for i, a in enumerate(args): fr[i + 1].v = a
+        calls = {c.bb: c for c in body.calls}
+        bi = 0
+        while True:
+            self.budget -= 1
+            if self.budget < 0: raise ProbeUndecided('step budget exhausted')
+            if bi in stop: return fr[0].v
+            blk = body.blocks[bi]
+            for st in blk['st']:
+                if 'dst' not in st: continue
+                v = self.rvalue(body, fr, st['rv'])
+                h = self.handle(fr, st['dst'])
+                if h: self.store(h[0], h[1], v)
+            t = blk['term']; k = t['k']
+            if k in ('goto', 'drop', 'assert'): bi = t['t']
+            elif k == 'return': return fr[0].v
+            elif k == 'call':
+                if intercept and bi in intercept:
+                    v = intercept[bi](fr)
+                    if isinstance(v, str) and v == 'stop': return fr[0].v
+                else:
+                    v = self.call(body, fr, calls[bi], depth)
+                h = self.handle(fr, t['dst'])
+                if h: self.store(h[0], h[1], v)
+                if t['t'] < 0: raise ProbeUndecided('diverging call')
+                bi = t['t']
+            elif k == 'switch':
+                v = _full(self.operand(body, fr, t['d']))
+                if isinstance(v, bool): v = 1 if v else 0
+                if not isinstance(v, int): raise ProbeUndecided('switch on an unknown value at %s' % body.site(bi))
+                m = {a: b for a, b in t['ts']}
+                bi = m.get(v, t['else'])
+            else:
+                raise ProbeUndecided('terminator ' + k)
+
+
+def probe_loop_pass(ctx, b, lo, tree, leaf_values):
+    """one pass of the `next` loop `lo` of b with the item built from `tree`, its leaves being references to the cells in leaf_values
+    {label: _Cell}.  The code before the loop runs too (on unknown parameters), so locals it sets are there."""
+    def build(t):
+        if t[0] == 'leaf':
+            if t[1] not in leaf_values: raise ProbeUndecided('item leaf %s has no sample' % t[1])
+            return _Ref(leaf_values[t[1]], [])
+        return ['tuple', [build(x) for x in t[1]]]
+    seen = {'n': 0}
+    def at_next(fr):
+        seen['n'] += 1
+        if seen['n'] > 1: return 'stop'
+        return ['enum', 'std::option::Option::Some', [build(tree)]]
+    Probe(ctx).run(b, [UNK] * b.argc, intercept={lo[0].bb: at_next})
 
 
 # =============================================================================== C19.codes
@@ -608,15 +932,17 @@ def section_rules(ctx):
     # skipping rules keyed by the problem-type letters
     kinds = {'ProbObjKind': ctx.F.adt('qplib::parser::ProbObjKind'), 'ProbVarKind': ctx.F.adt('qplib::parser::ProbVarKind'), 'ProbConstrKind': ctx.F.adt('qplib::parser::ProbConstrKind')}
     _ru = {}
+    def ru(ty, v):
+        key = (ty, v['discr'])
+        if key not in _ru: _ru[key] = reach_under(ctx, b, ty, v)
+        return _ru[key]
     def skipped_under(call):
         res = {}
         for ty, adt in kinds.items():
             if not adt: continue
             sk = set()
             for v in adt['variants']:
-                key = (ty, v['discr'])
-                if key not in _ru: _ru[key] = reach_under(ctx, b, ty, v)
-                if call.bb not in _ru[key]: sk.add(v['name'])
+                if call.bb not in ru(ty, v): sk.add(v['name'])
             if sk: res[ty] = sk
         return res
     def chk(field, idx, want, what):
@@ -647,8 +973,11 @@ def section_rules(ctx):
     cl = [c for c in vt.call_objs if c.item == 'collect_list']
     okv = bool(cl) and any(skipped_under(c) == {'ProbVarKind': {'Continuous', 'Binary', 'Integer'}} for c in cl)
     ctx.check(okv, R + '/skip/var_types', 'T-BRANCHFX', b.name, 'the variable-type section must be read exactly for M and G problems', b.site())
-    consts = sorted({st2['rv']['adt'].split('::')[-1] for b2, st2 in b.stmts() if st2['rv']['k'] == 'agg' and 'VarType::' in st2['rv']['adt']})
-    ctx.check(consts == ['Binary', 'Continuous', 'Integer'], R + '/var-types-from-letter', 'T-TABLE', b.name, 'letter-derived variable types: %s' % consts, b.site())
+    # which type a letter stands for: under "variables letter == V" the only VarType that can be written down is V's (none for M and G, which read them)
+    rows = enum_rows(ctx, b, 'qplib::parser::ProbVarKind', lambda reg: sorted({st2['rv']['adt'].split('::')[-1] for b2, st2 in b.stmts() if b2 in reg and st2['rv']['k'] == 'agg' and 'VarType::' in st2['rv']['adt']}))
+    want_rows = {'Continuous': ['Continuous'], 'Binary': ['Binary'], 'Integer': ['Integer'], 'Mixed': [], 'General': []}
+    ctx.check(rows == want_rows, R + '/var-types-from-letter', 'T-TABLE', b.name, 'letter-derived variable types are %s, expected %s' % (rows, want_rows), b.site())
+    vartype_rules(ctx, b, st, kinds, ru)
     # binary problems: bounds [0,1] -- the only float literal that can become a lower bound is 0, an upper bound 1
     # (`vec![0.; n]`, `repeat(0.).take(n).collect()`, a helper: any way of filling; which of the two is which is part of the rule)
     def fill_literals(field):
@@ -692,6 +1021,107 @@ def section_rules(ctx):
     q0 = first('q0_non_zeroes'); d0 = first('default_b0')
     if q0 and d0:
         ctx.check(before(q0, d0), R + '/order/q0-then-b0', 'T-BRANCHFX', b.name, 'Q0 is not read before b0', b.site(q0.bb))
+
+
+# =============================================================================== C19.vartypes
+VARTYPE_SAMPLES = (-1.0, 0.0, 0.5, 1.0, 2.0, 7.0)
+
+
+def vartype_rules(ctx, fl, st, kinds, reach_of):
+    """declared variable types: an Integer variable is re-typed Binary exactly when its bounds are (0,1), (0,0) or (1,1); nothing
+    else is re-typed; the re-typing is applied to the types of I, M and G problems with (lower_bounds, upper_bounds) in this order"""
+    R = 'C19.vartypes'
+    ib = ctx.free_fn(R + '/anchor', 'qplib::parser::integer_to_binary')
+    if ib is None: return
+    ctx.fn(ib)
+    calls = [c for c in origin_calls(fl, agg_field_operand(st, 'var_types')) if c.path == ib.name]
+    # (1) applied where the format can declare integer variables
+    adt = kinds.get('ProbVarKind')
+    applied = sorted(v['name'] for v in (adt or {}).get('variants', []) if any(c.bb in reach_of('ProbVarKind', v) for c in calls))
+    ctx.check({'Integer', 'Mixed', 'General'} <= set(applied), R + '/applied', 'T-BRANCHFX', fl.name,
+              'QplibFile.var_types goes through integer_to_binary for %s problems; it must for Integer, Mixed and General' % applied, fl.site())
+    # (2) which argument is which: by the value the call site passes
+    def oset(op): return {id(c) for c in origin_calls(fl, op)}
+    O = {'lower': oset(agg_field_operand(st, 'lower_bounds')), 'upper': oset(agg_field_operand(st, 'upper_bounds'))}
+    roles = None; bad = []
+    for c in calls:
+        r = {}
+        for i, a in enumerate(c.args):
+            if a['k'] in ('copy', 'move') and 'VarType' in fl.locals[a['pl']['l']]: r[i + 1] = 'types'; continue
+            oa = oset(a) if a['k'] in ('copy', 'move') else set()
+            hit = [k for k in ('lower', 'upper') if oa & O[k]]
+            if len(hit) == 1: r[i + 1] = hit[0]
+        if sorted(r.values()) != ['lower', 'types', 'upper']: bad.append(fl.site(c.bb)); continue
+        if roles is None: roles = r
+        elif roles != r: bad.append(fl.site(c.bb))
+    if calls and roles is not None and not bad:
+        ctx.ok(R + '/bounds-passed', 'T-CARRY', fl.site(calls[0].bb), roles=str(roles))
+    elif calls and roles is None:
+        ctx.undecided(R + '/bounds-passed', 'T-CARRY', fl.site(), 'cannot tell which argument of integer_to_binary carries which bound list')
+    else:
+        ctx.bad(R + '/bounds-passed', 'T-CARRY', fl.name, 'integer_to_binary is not given (types, lower_bounds, upper_bounds) consistently at %s' % (bad or 'any call'), fl.site())
+    if roles is None: roles = {1: 'types', 2: 'lower', 3: 'upper'}          # declaration order
+    lab = {v: '#%d' % k for k, v in roles.items()}
+    # (3) truth table of the re-typing on sample bounds, by probing one pass of the loop (nothing is executed)
+    want_bin = {(0.0, 1.0), (0.0, 0.0), (1.0, 1.0)}
+    loops = []
+    for lo in T.for_loops(ib):
+        tree = item_tree(ctx, ib, lo[0].args[0])
+        leaves = set()
+        def collect(t):
+            if t is None: return
+            if t[0] == 'leaf': leaves.add(t[1])
+            else:
+                for x in t[1]: collect(x)
+        collect(tree)
+        if tree is not None and set(lab.values()) <= leaves: loops.append((lo, tree))
+    wrong = []; why = None
+    param = {v: k for k, v in roles.items()}
+    def one(t0, l, u, whole):
+        cv = _Cell(['enum', 'qplib::parser::VarType::' + t0, []]); cl = _Cell(l); cu = _Cell(u)
+        if whole:
+            # the function itself on one-element lists (std_model: iter / zip / index / len ..)
+            # a second entry (an integer variable with bounds [3, 4], which must stay as it is) stands before the sample
+            args = [UNK] * ib.argc
+            decoy = {'types': _Cell(['enum', 'qplib::parser::VarType::Integer', []]), 'lower': _Cell(3.0), 'upper': _Cell(4.0)}
+            for role, cell in (('types', cv), ('lower', cl), ('upper', cu)):
+                vec = ['vec', [decoy[role], cell]]
+                args[param[role] - 1] = _Ref(_Cell(vec), []) if ib.locals[param[role]].lstrip().startswith('&') else vec
+            ret = Probe(ctx).run(ib, args)
+            rv_, _r = Probe._target(ret)
+            if not (isinstance(rv_, list) and rv_[0] == 'vec' and len(rv_[1]) == 2 and rv_[1][1] is cv): raise ProbeUndecided('the returned list is not the list of types that was passed in')
+            if _full(decoy['types'].v) != ['enum', 'qplib::parser::VarType::Integer', []]: cv = _Cell(['enum', 'qplib::parser::VarType::<neighbouring entry changed>', []])
+        else:
+            # one pass of the loop with the item built from the iterator chain
+            probe_loop_pass(ctx, ib, loops[0][0], loops[0][1], {lab['types']: cv, lab['lower']: cl, lab['upper']: cu})
+        return cv, cl, cu
+    mode = None
+    for whole in (True, False):
+        try:
+            if not whole and not loops: raise ProbeUndecided((why or '') + '; no loop over (types, lower bounds, upper bounds) recognised')
+            one('Integer', 0.0, 1.0, whole); mode = whole; why = None; break
+        except ProbeUndecided as e:
+            why = ((why + '; ') if why else '') + str(e)
+    if mode is not None:
+        try:
+            for t0 in ('Continuous', 'Integer', 'Binary'):
+                for l in VARTYPE_SAMPLES:
+                    for u in VARTYPE_SAMPLES:
+                        cv, cl, cu = one(t0, l, u, mode)
+                        got = cv.v[1].split('::')[-1] if isinstance(cv.v, list) and cv.v[0] == 'enum' else repr(cv.v)
+                        want = 'Binary' if (t0 == 'Integer' and (l, u) in want_bin) else t0
+                        if got != want: wrong.append('%s[%g, %g] -> %s (expected %s)' % (t0, l, u, got, want))
+                        if cl.v != l or cu.v != u: wrong.append('bounds [%g, %g] are modified' % (l, u))
+        except ProbeUndecided as e:
+            why = str(e)
+    if why is not None:
+        # weaker condition that is still decided: only the literals 0 and 1 take part in the bound test
+        lits = sorted({c for bd in [ib] + [x for n, x in ctx.F.bodies.items() if n.startswith(ib.name + '::promoted[')] for bi, s2 in bd.stmts() for o in s2['rv'].get('ops', []) if o['k'] == 'const' and re.match(r'^-?[0-9.E+-]+f64$', o['v']) for c in [o['v']]})
+        ctx.check(set(lits) <= {'0f64', '1f64'} and bool(lits), R + '/truth-table/literals', 'T-TABLE', ib.name, 'the bound test of integer_to_binary uses the literals %s, expected only 0 and 1' % lits, ib.site())
+        ctx.undecided(R + '/truth-table', 'T-TABLE', ib.site(), 'cannot probe the re-typing loop: %s' % why)
+    else:
+        ctx.check(not wrong, R + '/truth-table', 'T-TABLE', ib.name, 'integer variables must become binary exactly for bounds (0,1), (0,0), (1,1) and no other type may change: %s%s' % ('; '.join(wrong[:6]), ' ...' if len(wrong) > 6 else ''), ib.site(),
+                  samples=3 * len(VARTYPE_SAMPLES) ** 2, probe='whole function on two-entry lists' if mode else 'one pass of the loop')
 
 
 # =============================================================================== C19.errors
@@ -943,16 +1373,34 @@ def sign_rules(ctx):
                 sg, core = sign_and_core(T.expr(cc, wf[0].args[2], depth=10))
                 same = [f for a, f in T.expr_fields(core) if a == 'tuple'] == idx and not any(x[0] in ('bin', 'un') for x in T.expr_walk(T.strip_wrappers(core)))
                 const_sign = sg if same else 'other'
-            # (b) coefficient lists multiplied by -1 in place inside the region (`*v *= -1.`, `*v = -*v`)
+            # (b) coefficient lists multiplied by -1 inside the region: in place (`*v *= -1.`, `*v = -*v`) or rebuilt
+            # (`q.values = q.values.iter().map(|v| -v).collect()`, `Term { id: t.id, coefficient: -t.coefficient }`): a negation of an f64 that is
+            # an element of Quadratic.values / of Linear.terms (.coefficient) -- by the place written, the place read, or the list looped over
             negated = set()
-            for b2, s2 in cc.stmts():
-                if b2 not in reg or not s2['dst']['p']: continue
-                rv = s2['rv']
-                isneg = (rv['k'] == 'bin' and rv['op'] == 'Mul' and any(o['k'] == 'const' and T.f64_const(o['v']) == -1.0 for o in rv['ops'])) or (rv['k'] == 'un' and rv['op'] == 'Neg')
-                if not isneg or not any(_reads_place(cc, o, s2['dst']) for o in rv['ops']): continue
-                fl = {f for a, f in LS.slice_operand(cc, {'k': 'copy', 'pl': {'l': s2['dst']['l'], 'p': []}}).fields} | {f for a, f in fields_of_place(s2['dst'])}
+            loop_blocks = reg | {b3 for lo_ in T.for_loops(cc) if lo_[4] & reg for b3 in lo_[4]}
+            def classify(ops, dst=None):
+                fl = set()
+                if dst is not None and dst['p'] and any(_reads_place(cc, o, dst) for o in ops):
+                    fl |= {f for a, f in LS.slice_operand(cc, {'k': 'copy', 'pl': {'l': dst['l'], 'p': []}}).fields} | {f for a, f in fields_of_place(dst)}
+                for o in ops:
+                    if o['k'] not in ('copy', 'move'): continue
+                    e = T.expr(cc, o, depth=10)
+                    fl |= {f for a, f in T.expr_fields(e) if a.startswith('v1::')}
+                    for x in T.expr_walk(e):
+                        if x[0] == 'call' and x[1] == 'next' and len(x) > 4:
+                            nc = [c for c in cc.calls if c.bb == x[4]]
+                            if nc and nc[0].bb in loop_blocks: fl |= {f for a, f in LS.slice_operand(cc, nc[0].args[0]).fields if a.startswith('v1::')}
                 if 'values' in fl: negated.add('quadratic.values')
                 if 'terms' in fl or 'coefficient' in fl: negated.add('linear.terms')
+            def minus_one(o): return o['k'] == 'const' and T.f64_const(o['v']) == -1.0
+            for b2, s2 in cc.stmts():
+                if b2 not in reg: continue
+                rv = s2['rv']
+                if (rv['k'] == 'bin' and rv['op'] == 'Mul' and rv.get('ty') == 'f64' and any(minus_one(o) for o in rv['ops'])) or (rv['k'] == 'un' and rv['op'] == 'Neg'):
+                    classify(rv['ops'], s2['dst'])
+            for c in cc.calls:           # `v * -1.` / `-v` on a `&f64` go through the operator traits
+                m = T.ARITH_CALL.match(c.name) if c.bb in reg else None
+                if m and ((m.group(2) == 'Mul' and any(minus_one(a) for a in c.args)) or m.group(2) == 'Neg'): classify(c.args)
             for c in cc.calls:           # `*v *= -1.` through the MulAssign trait (generic code)
                 if c.bb in reg and T.ASSIGN_CALL.match(c.name) and 'Mul' in c.name and any(a['k'] == 'const' and T.f64_const(a['v']) == -1.0 for a in c.args):
                     fl = {f for a, f in LS.slice_operand(cc, c.args[0]).fields}
@@ -994,6 +1442,40 @@ def sign_rules(ctx):
             ctx.undecided(R + '/side-uses-its-own-bound/' + name, 'T-CARRY', cc.site(), 'cannot tie the value compared with %s to one of the zipped lists' % key)
         else:
             ctx.check(src == want_list, R + '/side-uses-its-own-bound/' + name, 'T-CARRY', cc.name, 'the value compared with %s is an element of %s, it must be one of %s' % (key, src, want_list), cc.site())
+
+
+# how "every variable gets the default coefficient" may be written; (how, block) per site found
+DENSE_FILL_IDIOMS = {
+    'range-loop': '`(0..num_vars).map(|i| .. default_b0 ..).collect()` == `for i in 0..num_vars { push(.. default_b0 ..) }` == `extend((0..num_vars).map(..))`',
+    'from_elem':  '`vec![default_b0; num_vars]` (also of a struct holding it)',
+    'resize':     '`v.resize(num_vars, default_b0)`',
+    'repeat':     '`repeat(default_b0).take(num_vars)` / `repeat_n(default_b0, num_vars)`',
+}
+
+
+def dense_fill_sites(ctx, ob):
+    def has(o, f):
+        if o['k'] not in ('copy', 'move'): return False
+        return (QF, f) in T.expr_fields(T.expr(ob, o, depth=10)) or ctx.S.slice_operand(ob, o).has_field(QF, f) and not ctx.S.slice_operand(ob, o).call_objs
+    out = []
+    # range-loop: a Range 0..num_vars, a loop fed by num_vars, default_b0 read inside the loop
+    rng = [st for bi, st in ob.stmts() if st['rv']['k'] == 'agg' and st['rv']['adt'].endswith('ops::Range')
+           and re.match(r'^0_(u64|usize)$', st['rv']['ops'][0].get('v') or '') and (QF, 'num_vars') in T.expr_fields(T.expr(ob, st['rv']['ops'][1]))]
+    if rng:
+        for lo in T.for_loops(ob):
+            si = ctx.S.slice_operand(ob, lo[0].args[0])
+            if not si.has_field(QF, 'num_vars') or si.has_field(QF, 'b0_non_defaults'): continue
+            reads = any((QF, 'default_b0') in fields_of_place(o['pl']) for bi, st in ob.stmts() if bi in lo[4] for o in st['rv'].get('ops', []) if o['k'] in ('copy', 'move'))
+            reads = reads or any((QF, 'default_b0') in fields_of_place(st['rv']['pl']) for bi, st in ob.stmts() if bi in lo[4] and 'pl' in st['rv'])
+            if reads: out.append(('range-loop', lo[1]))
+    for c in ob.calls:
+        if c.item == 'from_elem' and len(c.args) == 2 and has(c.args[0], 'default_b0') and has(c.args[1], 'num_vars'): out.append(('from_elem', c.bb))
+        if c.item == 'resize' and len(c.args) == 3 and has(c.args[1], 'num_vars') and has(c.args[2], 'default_b0'): out.append(('resize', c.bb))
+        if c.item == 'repeat_n' and len(c.args) == 2 and has(c.args[0], 'default_b0') and has(c.args[1], 'num_vars'): out.append(('repeat', c.bb))
+        if c.item == 'take' and len(c.args) == 2 and has(c.args[1], 'num_vars'):
+            s0 = ctx.S.slice_operand(ob, c.args[0])
+            if any(x.item == 'repeat' and x.args and has(x.args[0], 'default_b0') for x in s0.call_objs): out.append(('repeat', c.bb))
+    return out
 
 
 def wrap_rules(ctx):
@@ -1069,16 +1551,27 @@ def convert_rules(ctx):
         # every function the objective can be returned as gets obj_constant itself (an early `return wrap_function(..)` makes two calls)
         ok = bool(wf) and all(len(c.args) == 3 and (QF, 'obj_constant') in T.access_path(ob, c.args[2])[0] and not any(x[0] in ('un', 'bin') for x in T.expr_walk(T.expr(ob, c.args[2]))) for c in wf)
         ctx.check(ok, R + '.b0/constant', 'T-CARRY', ob.name, 'objective constant is not obj_constant unchanged', ob.site())
-        rng = [st for bi, st in ob.stmts() if st['rv']['k'] == 'agg' and st['rv']['adt'].endswith('ops::Range')]
-        # `0..num_vars as u64` == `(0..num_vars)` with the cast on the item
-        okr = any(re.match(r'^0_(u64|usize)$', st['rv']['ops'][0].get('v') or '') and (QF, 'num_vars') in T.expr_fields(T.expr(ob, st['rv']['ops'][1])) for st in rng)
-        ctx.check(okr, R + '.b0/default-over-all-variables', 'T-LOOPMUST', ob.name, 'the default b0 is not expanded over ids 0..num_vars', ob.site())
-        loops = [lo for lo in T.for_loops(ob) if ctx.S.slice_operand(ob, lo[0].args[0]).has_field(QF, 'b0_non_defaults')]
-        okov = False
+        fills = dense_fill_sites(ctx, ob)
+        ctx.check(bool(fills), R + '.b0/default-over-all-variables', 'T-LOOPMUST', ob.name, 'the default b0 is not expanded over all num_vars variables (DENSE_FILL_IDIOMS)', ob.site(),
+                  how=sorted({h for h, bb in fills}))
+        # override: a loop over b0_non_defaults every pass of which writes the entry's value into the dense collection (a field of an
+        # element, an element, a map entry), after the default was filled in
+        def leaves_of(t):
+            return set() if t is None else ({t[1]} if t[0] == 'leaf' else set().union(*[leaves_of(x) for x in t[1]]))
+        loops = [lo for lo in T.for_loops(ob) if 'b0_non_defaults' in leaves_of(item_tree(ctx, ob, lo[0].args[0]))] or \
+                [lo for lo in T.for_loops(ob) if ctx.S.slice_operand(ob, lo[0].args[0]).has_field(QF, 'b0_non_defaults')]
+        okov = False; why = 'no loop over b0_non_defaults'
         for lo in loops:
-            ws = [(bi, st) for bi, st in ob.stmts() if bi in lo[4] and st['dst']['p'] and fields_of_place(st['dst'])[-1:] == [('v1::linear::Term', 'coefficient')]]
-            okov = okov or (bool(ws) and T.must_pass(ob, lo[2], {lo[1]}, {w[0] for w in ws}))
-        ctx.check(okov, R + '.b0/non-defaults-override', 'T-LOOPMUST', ob.name, 'non-default b0 entries do not override the default for every listed index', ob.site())
+            def from_item(o):
+                return o['k'] in ('copy', 'move') and any(x[0] == 'call' and x[1] == 'next' and len(x) > 4 and x[4] == lo[0].bb for x in T.expr_walk(T.expr(ob, o, depth=10)))
+            ws = {bi for bi, st in ob.stmts() if bi in lo[4] and st['dst']['p'] and st['rv']['k'] == 'use' and from_item(st['rv']['ops'][0])}
+            ws |= {c.bb for c in ob.calls if c.bb in lo[4] and c.item in ('insert', 'push') and any(from_item(a) for a in c.args[1:])}
+            if not ws: why = 'the loop over b0_non_defaults stores nothing taken from its entries'; continue
+            if not T.must_pass(ob, lo[2], {lo[1]}, ws): why = 'a listed entry can be skipped (a pass of the loop without the store)'; continue
+            late = [bb for h, bb in fills if not (lo[1] in ob.reach([bb]) and bb not in ob.reach([lo[1]]))]
+            if fills and len(late) == len(fills): why = 'the default is filled in after the non-default entries were written'; continue
+            okov = True
+        ctx.check(okov, R + '.b0/non-defaults-override', 'T-LOOPMUST', ob.name, 'non-default b0 entries do not override the default for every listed index: %s' % why, ob.site())
     wrap_rules(ctx)
     # variables
     dv = ctx.free_fn(R + '.vars/anchor', 'qplib::convert::convert_dvars')
@@ -1157,7 +1650,9 @@ def item_tree(ctx, b, operand, depth=16):
         rv = ds[0][2]['rv']
         src = rv['ops'][0] if rv['k'] == 'use' else {'k': 'copy', 'pl': rv['pl']}
         return item_tree(ctx, b, src, depth - 1)
-    return ('leaf', fs[-1]) if fs else None
+    if fs: return ('leaf', fs[-1])
+    root = T.access_path(b, operand, transparent=_ITER_IDENTITY)[1]
+    return ('leaf', '#%d' % root) if root is not None and 1 <= root <= b.argc else None
 
 
 def tree_at(tree, path):
@@ -1206,4 +1701,4 @@ def enum_rows(ctx, b, ty, pick):
 def check(ctx):
     codes_rules(ctx); section_rules(ctx); errors_rules(ctx); convert_rules(ctx)
     ctx.floor('C19.codes', 15); ctx.floor('C19.sections', 39); ctx.floor('C19.convert.cover', 19); ctx.floor('C19.infinity', 3)
-    ctx.floor('C19.convert.half', 4); ctx.floor('C19.convert.sign', 12); ctx.floor('C19.convert.b0', 8); ctx.floor('C19.convert.wrap', 2); ctx.floor('C19.convert.vars', 4)
+    ctx.floor('C19.convert.half', 4); ctx.floor('C19.convert.sign', 12); ctx.floor('C19.convert.b0', 8); ctx.floor('C19.convert.wrap', 2); ctx.floor('C19.convert.vars', 4); ctx.floor('C19.vartypes', 3)
